@@ -87,6 +87,8 @@ def perturb(ts, unphased, extra_sites):
     positions and nodes (and individuals when unphased) and differs in everything else."""
     import tskit
     t = ts.dump_tables()
+    for tab in (t.nodes, t.sites, t.mutations, t.populations, t.individuals):
+        tab.metadata_schema = tskit.MetadataSchema(None)
     t.nodes.clear(), t.sites.clear(), t.mutations.clear()
     t.populations.add_row(metadata=b"pop-a")
     t.populations.add_row(metadata=b"pop-b")
